@@ -315,6 +315,82 @@ func VerifC10BoundedWalk() {
 	verifReach("end")
 }
 
+// VerifC10SeekThenAuto: a seek to an arbitrary timestamp under arbitrary bounds, then one automatic step. The
+// view a seek reports lies inside the bounds; the automatic step that follows terminates, and when it returns
+// data, returns exactly the samples of the view it reports.
+func VerifC10SeekThenAuto() {
+	mk := func(vs ...int64) []byte {
+		var out []byte
+		for _, v := range vs {
+			var x [8]byte
+			telem.ByteOrder.PutUint64(x[:], uint64(v))
+			out = append(out, x[:]...)
+		}
+		return out
+	}
+	specs := []domain.VerifDomainSpec{
+		{Start: 10, End: 15, Data: mk(10, 14)},
+		{Start: 30, End: 37, Data: mk(30, 33, 36)},
+	}
+	all := []telem.TimeStamp{10, 14, 30, 33, 36}
+	ddb := domain.VerifBuildDB(specs)
+	ch := channel.Channel{Key: 1, Name: "idx", IsIndex: true, Index: 1, DataType: telem.TimeStampT}
+	db := &DB{domain: ddb, closed: &atomic.Bool{}, leadingAlignment: &atomic.Uint32{}, wrapError: func(err error) error { return err },
+		resolver: newOffsetResolver(ch.DataType, ddbInstr()), cfg: Config{Channel: ch}}
+	db.idx = &index.Domain{DB: ddb, Channel: ch}
+	ctx := context.Background()
+	b := telem.TimeRange{Start: telem.TimeStamp(verifInt64("bounds.start")), End: telem.TimeStamp(verifInt64("bounds.end"))}
+	verifAssume(b.Start >= 0 && b.Start < b.End && b.End <= 45)
+	chunk := int64(verifLen("chunk", 1, 2))
+	it, err := db.OpenIterator(IteratorConfig{Bounds: b, AutoChunkSize: chunk})
+	verifAssume(err == nil)
+	ts := telem.TimeStamp(verifInt64("seek-ts"))
+	verifAssume(ts >= 0 && ts <= 45)
+	ge := verifBool("seek-ge")
+	var ok bool
+	if ge {
+		ok = it.SeekGE(ctx, ts)
+	} else {
+		ok = it.SeekLE(ctx, ts)
+	}
+	v0 := it.View()
+	verifObserveBool("seek-ok", ok)
+	verifObserve("seek-view", int64(v0.Start))
+	if !ok {
+		verifReach("end")
+		return // a failed seek leaves the iterator unpositioned
+	}
+	insideBounds := v0.Start >= b.Start && v0.End <= b.End
+	verifAssert("seek-view-inside-bounds", insideBounds)
+	var valid bool
+	forward := verifBool("forward")
+	if forward {
+		valid = it.Next(ctx, AutoSpan)
+	} else {
+		valid = it.Prev(ctx, AutoSpan)
+	}
+	// backward automatic steps: open known finding C10-autoprev-domain-boundary (see VerifC10AutoWalk)
+	verifAssert := func(label string, cond bool) { verifAssertKnown(label, cond, "C10-autoprev-domain-boundary", !forward) }
+	if valid {
+		v := it.View()
+		got := verifFrameStamps(it)
+		verifObserve("n", int64(len(got)))
+		verifAssert("auto-step-after-seek-view-inside-bounds", v.Start >= b.Start && v.End <= b.End)
+		verifAssert("auto-step-after-seek-at-most-one-chunk", int64(len(got)) <= chunk)
+		for _, g := range got {
+			stored := false
+			for _, t := range all {
+				if t == g {
+					stored = true
+				}
+			}
+			verifAssert("auto-step-after-seek-returns-stored-samples-inside-the-bounds", stored && g >= b.Start && g < b.End)
+		}
+	}
+	verifAssert("close", it.Close() == nil)
+	verifReach("end")
+}
+
 // VerifC10AutoWalk: automatic chunk-sized steps. Over three gapped domains (fixed layout, 2/3/2 samples) and an
 // arbitrary chunk size, a forward traversal by Next(AutoSpan) from SeekFirst — and a backward one by
 // Prev(AutoSpan) from SeekLast — returns at every step at most one chunk of samples, exactly the stored samples
